@@ -150,5 +150,20 @@ Ok(vmean_counted(&c, count_zeros))
         !graph.specs.multi_edges && weighted && !all_weighted(*graph) ==> is_err_kind(r, ErrorKind::EdgeWeightNotSpecified),
         !graph.specs.multi_edges && (!weighted || all_weighted(*graph)) ==> r.is_ok(),
 //@ end
+
+//@ extract fn src/algorithms/cluster/utility.rs get_normalized_edge_weight props=C20
+//@ rewrite
+-> f64
+//@ with
+-> (r: f64)
+//@ spec
+    requires
+        graph.wf_nodes(), graph.wf_estore(),
+    ensures
+        // [C20.normalized_edge_weight.total_on_every_pair] no lookup is unwrapped: a missing edge, a missing node and a multi-edge graph all take the 1 / max branch
+        !graph.specs.multi_edges && graph.knows(*u) && graph.knows(*v) && graph.has_pair(graph.canon(graph.nodes_map@[*u], graph.nodes_map@[*v]).0, graph.canon(graph.nodes_map@[*u], graph.nodes_map@[*v]).1)
+            ==> r == fdiv(graph.pair_list(graph.canon(graph.nodes_map@[*u], graph.nodes_map@[*v]).0, graph.canon(graph.nodes_map@[*u], graph.nodes_map@[*v]).1)[0].weight, *max_weight),
+        graph.specs.multi_edges || !graph.knows(*u) || !graph.knows(*v) ==> r == fdiv(1.0f64, *max_weight),
+//@ end
 } // verus!
 fn main() {}
